@@ -28,7 +28,8 @@ LEVEL = 'exploration'
 NEEDS_GPG = True
 RULE = ('each run is (a) a fake-peer run: a status sequence drawn from gpg\'s vocabulary (good / expired-key / revoked-key / '
         'bad / error / expired-signature shapes) with 0-3 line faults (drop, duplicate, swap, insert, garbage), an exit '
-        'status, optional stdout truncation / missing binary / non-UTF-8 stderr, fed to verify_file and ManifestFile.load; '
+        'status, optional stdout truncation / missing binary / non-UTF-8 stderr, fed to verify_file and ManifestFile.load '
+        '(35%: also as the second load of a ManifestFile object that had accepted a signature before); '
         'or (b) a real-gpg run: key state x owner-trust level x peer clock x flipped signed byte x user-GNUPGHOME content '
         'x API (library, CLI with -K/-s/-P) x process fault (exit status, signal, truncated/no output); non-trivial = a '
         'fault, a non-default key state/trust/clock or a mutation was in play; distinct = distinct outcome digest')
@@ -127,6 +128,9 @@ def generate(rng, tier, idx):
         if rng.random() < 0.25:
             rc = rng.choice([0, 0, 1, 2, 33, -9, -15, 255])
         sc = {'prop': ID, 'mode': 'fake', 'seq': seq, 'rc': rc, 'order_key': '0'}
+        if rng.random() < 0.35:
+            # history on one ManifestFile object: an accepted signature first, then this load on the SAME object
+            sc['reload'] = rng.choice(['script', 'script', 'unsigned', 'noverify'])
         r = rng.random()
         if r < 0.1:
             sc['trunc'] = rng.randrange(0, 400)
@@ -238,6 +242,35 @@ def exec_fake(sc):
                 violations.append(viol('sig.accepted', '%s: ManifestFile.load %s, openpgp_signed=%r' % (what, describe(r2), m.openpgp_signed), sig='load'))
             if sc.get('missing') and not (r1[0] == 'GE' and r1[1] == 'OpenPGPNoImplementation'):
                 violations.append(viol('sig.wrong-failure', 'missing gpg binary: %s' % describe(r1), sig='missing'))
+    if sc.get('reload') and not sc.get('missing'):
+        m2 = gemato.manifest.ManifestFile()
+        with GS.FakePeer({'status': [L[k] for k in ('NEWSIG', 'KC', 'SIG_ID', 'GOODSIG', 'VALIDSIG', 'KC', 'TRUST_ULTIMATE')], 'rc': 0}):
+            env2 = SystemGPGEnvironment()
+            ra = call(lambda: m2.load(io.StringIO(SIGNED), verify_openpgp=True, openpgp_env=env2))
+            first_ok = ra[0] == 'ok' and m2.openpgp_signed is True
+            kind = sc['reload']
+            if kind == 'unsigned':
+                rb = call(lambda: m2.load(io.StringIO('DATA a 1\n'), verify_openpgp=True, openpgp_env=env2))
+                expect = False
+            elif kind == 'noverify':
+                rb = call(lambda: m2.load(io.StringIO(SIGNED), verify_openpgp=False))
+                expect = False
+        if kind == 'script':
+            with GS.FakePeer(script):
+                env3 = SystemGPGEnvironment()
+                rb = call(lambda: m2.load(io.StringIO(SIGNED), verify_openpgp=True, openpgp_env=env3))
+            expect = bool(m.openpgp_signed)       # what a fresh object reports for the same text and the same reports
+        counters['reload.' + kind] = 1
+        out += ['reload', kind, rb[0], bool(m2.openpgp_signed)]
+        if rb[0] == 'INTERNAL':
+            violations.append(viol('sig.internal-error', 'reload (%s): %s' % (kind, describe(rb)), sig=rb[1]))
+        elif first_ok and not (kind == 'script' and dontcare):
+            if bool(m2.openpgp_signed) != expect or (not expect and m2.openpgp_signature is not None):
+                violations.append(viol('sig.stale-after-reload',
+                                       'a ManifestFile that had loaded an accepted signature was loaded again (%s, status %r exit %r): it '
+                                       'reports openpgp_signed=%r signature=%s, a fresh object reports signed=%r' % (
+                                           kind, sc['seq'], sc.get('rc'), m2.openpgp_signed,
+                                           'kept' if m2.openpgp_signature is not None else 'None', expect), sig=kind))
     nontrivial = not dontcare
     res = mk_result([], violations, nontrivial, outcome=out, dontcare=zones, counters=counters, ops=2,
                     extra_digest=repr(sc['seq']) + repr(sc.get('rc')) + repr(sc.get('trunc')))
